@@ -8,7 +8,7 @@ PIDS = [f"C{i:02d}" for i in range(1, 20)]
 
 def sh(cmd, cwd=None, env=None):
     e = dict(os.environ); e.update(env or {})
-    p = subprocess.run(cmd, cwd=cwd, env=e, capture_output=True, text=True)
+    p = subprocess.run(cmd, cwd=cwd, env=e, capture_output=True, text=True, stdin=subprocess.DEVNULL)
     return p.returncode, p.stdout + p.stderr
 
 import threading
